@@ -55,6 +55,22 @@ PROPS = {
         "trusted_base": [],
         "assumptions": ["add_value/clear/merge/restore bypass the undo log and are outside the property's operation set (add_value is used only to build the initial store)"],
     },
+    "C18": {
+        "num": 18,
+        "vo": ["Properties/C18.vo"],
+        "rule": "exhaustive: all sequences of length<=2, and all length-3 continuations after creating A,B (thorough: length-4 after A,B,C), over an alphabet of create/delete/"
+                "export-all/add-rule/import(to,from) on 3 user modules; random sequences of 3..7 ops over 4 module names (incl. MAIN), 3 rule names, 6 patterns "
+                "(*, prefix, suffix, exact, ?ALL), Specific exports, all import types, re-exports; non-trivial = at least one accepted import",
+        "level_text": "Proved for every operation sequence: a refused operation changes nothing; self-imports are refused; every declared import names an existing module "
+                "(invariant through create/delete/export/add-rule/import); hence visibility queries on existing modules never fail, and is_rule_visible equals the declarative "
+                "'owns or imports with matching pattern from an exporting module'. Acyclicity of the declared relation, acceptance/refusal of every import against declared reachability, "
+                "and get_visible_rules are the Coq-defined executable specification Module.ok evaluated on the real ModuleManager after every op.",
+        "level_note": "Trusted: Coq kernel; model of module.rs after the delete_module fix (rules only; templates/salience/focus not modelled); harness; extraction. 'exports' follows the code's "
+                "definition (own rule matching the export list, or any name matching a re-export pattern). Acyclicity (BFS correctness) is checked by the monitor, not yet a theorem. "
+                "Known finding C18-listing-misses-reexports (monitor class 2). Axioms: none.",
+        "trusted_base": [],
+        "assumptions": ["module and rule names are arbitrary strings; patterns as implemented by pattern_matches"],
+    },
     "C13": {
         "num": 13,
         "vo": ["Properties/C13.vo"],
